@@ -89,7 +89,7 @@ Proof.
 Qed.
 
 (* ---------- an offered long name is accepted and sets that very flag ---------- *)
-Definition to_flag (f : fdef) : flag := mkFlag (fd_name f) (fd_kind f).
+Definition to_flag (f : fdef) : flag := mkFlag (fd_name f) (fd_kind f) (fd_short f).
 (* a name cobra can define: not empty, not starting with a dash, no `=` *)
 Definition wf_name (n : str) : Prop := n <> [] /\ starts_dash n = false /\ ~ In (byte 61) n.
 
